@@ -13,5 +13,7 @@ for c in "$@"; do
   out=$(VERIF_SEED=${VERIF_SEED:-1} python3 check.py $c --tier ${TIER:-quick} 2>&1); rc=$?
   echo "== $c rc=$rc"; echo "$out" | grep -E "^\[C|violation:|KNOWN|INCONCL" | cut -c1-${WIDTH:-400} | head -${LINES_MAX:-8}
 done
+git -C /repo reset -q
 git -C /repo checkout -- .
+git -C /repo clean -fdq -- src tests examples
 git -C /repo status --short | grep -v '^??' 
